@@ -428,13 +428,22 @@ package factory
 // Round r: Add(len(components)), one thread per delivered name, Wait; then the error list decides.
 //   [failure-surfaces]: ghost Failed is raised exactly when some scan of the round failed, and then the list is
 //   non-empty (lock invariant), so an error is returned.
+//   ScanRounds: rounds of parallel scanning completed (one per definition-registry post-processor); ScanProcsLen: how
+//   many such processors the factory handed out for this start-up
+//@ ghost var ScanRounds int
+//@ ghost var ScanProcsLen int
 //@ func (*PostProcessorRegistrationDelegate).applyDefinitionRegistryPostProcessors
 //@ terminates
 //@ property C20 C09
 //@ requires [factory-given] factory != nil
 //@ requires [no-live-threads] Joined <= Forks && forall(k, int, implies(k >= Forks, !ScanRecorded[k] && !ScanFailed[k]))
-//@ assigns Forks, Joined, ScanRegion, ScanFailed, ScanRecorded, ScanBase, Failed, forkargs(name), forkargs(component)
+//@ assigns Forks, Joined, ScanRegion, ScanFailed, ScanRecorded, ScanBase, Failed, forkargs(name), forkargs(component), ScanRounds, ScanProcsLen
 //@ let f0 = Forks
+//@ let rounds0 = ScanRounds
+//@ ensures [every-definition-processor-scans] implies(result == nil, ScanRounds == rounds0 + ScanProcsLen)
+//@ ghost after call GetDefinitionRegistryPostProcessors: ScanProcsLen = len(_result)
+//@ ghost after call WaitGroup).Wait: ScanRounds = ScanRounds + 1
+//@ loop 1 invariant [rounds-counted] ScanRounds == rounds0 + _done && ScanProcsLen == len(_range)
 //@ ensures [failure-surfaces] implies(result == nil, Failed == old(Failed))
 //@ ensures [no-live-threads] Joined <= Forks && forall(k, int, implies(k >= Forks, !ScanRecorded[k] && !ScanFailed[k]))
 //@ ghost before call Add: ScanBase = Forks
@@ -460,7 +469,7 @@ package factory
 //   SortedProcs: ghost copy of the sorted list of registered post-processors (the slice the instantiation loop ranges over)
 //@ ghost var SortedProcs []container.ComponentPostProcessor
 //@ spec func RawOK(f *PostProcessorRegistrationDelegate) bool = forall(k, int, implies(0 <= k && k < len(f.rawComponentPostProcessors), f.rawComponentPostProcessors[k] != nil), f.rawComponentPostProcessors[k])
-//@ frame ScanPhaseFrame() = Forks, Joined, ScanRegion, ScanFailed, ScanRecorded, ScanBase, forkargs(applyDefinitionRegistryPostProcessors, name), forkargs(applyDefinitionRegistryPostProcessors, component)
+//@ frame ScanPhaseFrame() = Forks, Joined, ScanRegion, ScanFailed, ScanRecorded, ScanBase, ScanRounds, ScanProcsLen, forkargs(applyDefinitionRegistryPostProcessors, name), forkargs(applyDefinitionRegistryPostProcessors, component)
 
 //@ func (*PostProcessorRegistrationDelegate).RegisterComponentPostProcessors
 //@ terminates
@@ -475,13 +484,19 @@ package factory
 // post-processors (C12 contract) and instantiate the non-lazy ones. A failure anywhere surfaces as an error; on success
 // every post-processor in the final list is non-nil, and the list has the sorted list's length with every LAZY
 // processor at its sorted position (the built-in placeholder / expression / validation stages are lazy).
+//   FppCalls: factory post-processors invoked so far
+//@ ghost var FppCalls int
 //@ func (*PostProcessorRegistrationDelegate).InvokeBeanFactoryPostProcessors
 //@ terminates
 //@ property C05 C09 C18 C12
 //@ requires [given] f != nil && factory != nil && RawOK(f) && ProcsOK(f)
 //@ requires [factory-processors-non-nil] forall(k, int, implies(0 <= k && k < len(factoryProcessors), factoryProcessors[k] != nil), factoryProcessors[k])
 //@ requires [no-live-threads] Joined <= Forks && forall(k, int, implies(k >= Forks, !ScanRecorded[k] && !ScanFailed[k]))
-//@ assigns f.rawComponentPostProcessors, f.componentPostProcessors, SortedProcs, ProcessorWiring(), Failed, ScanPhaseFrame(), AnyRegFrame(), CreationFrame()
+//@ assigns f.rawComponentPostProcessors, f.componentPostProcessors, SortedProcs, ProcessorWiring(), Failed, ScanPhaseFrame(), AnyRegFrame(), CreationFrame(), FppCalls
+//@ let fpp0 = FppCalls
+//@ ensures [every-factory-processor-invoked] implies(result == nil, FppCalls == fpp0 + len(factoryProcessors))
+//@ ghost after call PostProcessComponentFactory: FppCalls = FppCalls + 1
+//@ loop 1 invariant [factory-processors-invoked] FppCalls == fpp0 + _done
 //@ ensures [failure-surfaces] implies(result == nil, Failed == old(Failed))
 //@ ensures [processors-non-nil] implies(result == nil, ProcsOK(f))
 //@ ensures [no-live-threads] Joined <= Forks && forall(k, int, implies(k >= Forks, !ScanRecorded[k] && !ScanFailed[k]))
@@ -514,7 +529,7 @@ package factory
 //@ implements container.Factory
 //@ requires [wired] f != nil && f.singletonRegistry != nil && f.postProcessorRegistrationDelegate != nil && RawOK(f.postProcessorRegistrationDelegate) && ProcsOK(f.postProcessorRegistrationDelegate)
 //@ requires [no-live-threads] Joined <= Forks && forall(k, int, implies(k >= Forks, !ScanRecorded[k] && !ScanFailed[k]))
-//@ assigns f.registeredComponents, f.definitionRegistryPostProcessors, any(f.postProcessorRegistrationDelegate.hasInstantiationAwareComponentPostProcessor), any(f.postProcessorRegistrationDelegate.hasDestructionAwareComponentPostProcessor), any(f.postProcessorRegistrationDelegate.rawComponentPostProcessors), any(f.postProcessorRegistrationDelegate.componentPostProcessors), PrepAt, PrepDrp, PrepRaw, PrepFpp, SortedProcs, ProcessorWiring(), Failed, ScanPhaseFrame(), AnyRegFrame(), CreationFrame()
+//@ assigns f.registeredComponents, f.definitionRegistryPostProcessors, any(f.postProcessorRegistrationDelegate.hasInstantiationAwareComponentPostProcessor), any(f.postProcessorRegistrationDelegate.hasDestructionAwareComponentPostProcessor), any(f.postProcessorRegistrationDelegate.rawComponentPostProcessors), any(f.postProcessorRegistrationDelegate.componentPostProcessors), PrepAt, PrepDrp, PrepRaw, PrepFpp, FppCalls, SortedProcs, ProcessorWiring(), Failed, ScanPhaseFrame(), AnyRegFrame(), CreationFrame()
 //@ ensures [processors-ready] implies(result == nil, ProcsOK(f.postProcessorRegistrationDelegate))
 //@ ghost after call GetSingleton$: PrepAt = store(PrepAt, _idx, _result0)
 //@ ghost before call append(f.definitionRegistryPostProcessors): PrepDrp = store(PrepDrp, _idx, len(f.definitionRegistryPostProcessors))
